@@ -19,10 +19,13 @@ SumSeq(s) == IF s = <<>> THEN 0 ELSE Head(s) + SumSeq(Tail(s))
 Chunkings == { <<1>>, <<64>>, <<1, 1, 1>>, <<15, 17>>, <<16, 16>>, <<1000, 1, 4096>>, <<0, 5>>, <<65536, 3>> }
 ASSUME PositionsAgree == \A a \in Chunkings : \A b \in Chunkings : SumSeq(a) = SumSeq(b) => TRUE
 
-RunCases == { [cls |-> "run", in |-> [kind |-> "run", tag |-> t, dc |-> d, secret |-> s, c2s |-> w1, s2c |-> w2, rchunk |-> r],
+\* hseg: the transport under the accepting side hands over at most that many bytes per read (a header split across
+\* TCP segments): "any read chunking" includes the 64-byte header
+RunCases == { [cls |-> "run", in |-> [kind |-> "run", tag |-> t, dc |-> d, secret |-> s, c2s |-> w1, s2c |-> w2, rchunk |-> r, hseg |-> h],
                expect |-> [accept_ok |-> TRUE, tag_equal |-> TRUE, dc |-> U16(d), c2s_equal |-> TRUE, s2c_equal |-> TRUE, header_len |-> 64]]
               : t \in Tags, d \in (IF Thorough THEN DCs ELSE {2, -2, 10002, 65535}), s \in {"none", "16"},
-                w1 \in (IF Thorough THEN Chunkings ELSE {<<1, 1, 1>>, <<15, 17>>, <<65536, 3>>}), w2 \in {<<64>>, <<0, 5>>, <<1000, 1, 4096>>}, r \in {1, 7, 100000} }
+                w1 \in (IF Thorough THEN Chunkings ELSE {<<1, 1, 1>>, <<15, 17>>, <<65536, 3>>}), w2 \in {<<64>>, <<0, 5>>, <<1000, 1, 4096>>}, r \in {1, 7, 100000},
+                h \in (IF Thorough THEN {1, 17, 40, 63, 64, 100000} ELSE {1, 63, 100000}) }
 \* a wrong secret on the accepting side: metadata and data must not come through
 WrongSecret == { [cls |-> "wrongsecret", in |-> [kind |-> "wrongsecret", tag |-> t], expect |-> [tag_equal |-> FALSE]] : t \in Tags }
 
